@@ -232,6 +232,10 @@ def shapes(tier, seed):
     # two controls for the identity term (CPHASE + CRZ branch), and the non-trotterize entry point
     out.append(Shape("qubitop/Z0/ctl=[1,2]/id", h_qubit_op, dict(words=[((0, "Z"),)], nq=3, order=1, steps=1, control=[1, 2],
                                                                 time_mode="scalar", use_trotterize=True, ident=True), modules=MODS))
+    out.append(Shape("qubitop/Z1/ctl=[0,2]/id", h_qubit_op, dict(words=[((1, "Z"),)], nq=3, order=1, steps=1, control=[0, 2],
+                                                                time_mode="scalar", use_trotterize=True, ident=True), modules=MODS))
+    out.append(Shape("qubitop/X1/ctl=[2,0]/id", h_qubit_op, dict(words=[((1, "X"),)], nq=3, order=2, steps=2, control=[2, 0],
+                                                                time_mode="dict", use_trotterize=True, ident=True), modules=MODS))
     out.append(Shape("qubitop/X0X1+Z0/direct/o2", h_qubit_op, dict(words=[((0, "X"), (1, "X")), ((0, "Z"),)], nq=2, order=2, steps=1,
                                                                   control=None, time_mode="dict", use_trotterize=False, ident=True), modules=MODS))
     out.append(Shape("canary/qubitop/sign", h_qubit_op, dict(words=[((0, "X"), (1, "X")), ((0, "Z"),)], nq=2, order=1, steps=1,
